@@ -37,11 +37,14 @@ noncomputable section
 /-- leaf pins: a new or renumbered leaf breaks the build instead of escaping the theorems below -/
 theorem rod3_leaves : Rod3.okLeaves = [0, 1, 2, 3, 4, 5, 6, 7, 8, 9, 10, 11, 12, 13, 15, 16] ∧ Rod3.nLeaves = 17 := ⟨rfl, rfl⟩
 
-/-- case analysis over the zero pattern of (α₁, β₁, α₂, β₂) and the flux equality -/
+/-- case analysis over the zero pattern of (α₁, β₁, α₂, β₂) and the flux equality (`hs`: the flux test may be traced
+in either orientation, `F1 != F2` or `F2 != F1`) -/
 macro "rod_cases" q:ident : tactic =>
-  `(tactic| (by_cases h0 : ($q).alpha1 = 0 <;> by_cases h1 : ($q).beta1 = 0 <;> by_cases h2 : ($q).alpha2 = 0 <;>
+  `(tactic| (have hs : (($q).gamma2 / ($q).beta2 = ($q).gamma1 / ($q).beta1) ↔ (($q).gamma1 / ($q).beta1 = ($q).gamma2 / ($q).beta2) :=
+               eq_comm
+             by_cases h0 : ($q).alpha1 = 0 <;> by_cases h1 : ($q).beta1 = 0 <;> by_cases h2 : ($q).alpha2 = 0 <;>
              by_cases h3 : ($q).beta2 = 0 <;> by_cases h4 : ($q).gamma1 / ($q).beta1 = ($q).gamma2 / ($q).beta2 <;>
-             simp [h0, h1, h2, h3, h4]))
+             simp [h0, h1, h2, h3, h4, hs]))
 
 /-- **the documented restriction is enforced, by ValueError, and nothing else is rejected** -/
 theorem rod3_rejects_iff (q : Rod3.P) (x t : ℝ) :
@@ -59,7 +62,7 @@ theorem rod3_bc1_welldefined (q : Rod3.P) (x t : ℝ) (h1 : q.alpha1 ≠ 0) (h2 
   have hπ := Real.pi_ne_zero
   refine ⟨by simp [epv_tree, epv_cond, h1, h2, h3, h4], ?_⟩
   unfold Rod3.L4.WellDefined
-  refine ⟨hL, h1, by simpa using hπ, h3, by simpa using hπ⟩
+  simp [hL, h1, h3, hπ]
 
 /-- BC2 with equal fluxes and L ≠ 0: leaf 13 -/
 theorem rod3_bc2_welldefined (q : Rod3.P) (x t : ℝ) (h1 : q.alpha1 = 0) (h2 : q.beta1 ≠ 0) (h3 : q.alpha2 = 0)
@@ -67,9 +70,11 @@ theorem rod3_bc2_welldefined (q : Rod3.P) (x t : ℝ) (h1 : q.alpha1 = 0) (h2 : 
     Rod3.leaf q x t = 13 ∧ Rod3.L13.WellDefined q x t := by
   have hπ := Real.pi_ne_zero
   have hc5 : (q.gamma1 / q.beta1 = q.gamma2 / q.beta2) = True := eq_true hF
-  refine ⟨by simp only [epv_tree, epv_cond, h1, h2, h3, h4, hc5, if_true, if_false], ?_⟩
+  have hc5' : (q.gamma2 / q.beta2 = q.gamma1 / q.beta1) = True := eq_true hF.symm
+  refine ⟨by simp only [epv_tree, epv_cond, h1, h2, h3, h4, hc5, hc5', if_true, if_false, not_true_eq_false, not_false_eq_true,
+    ne_eq], ?_⟩
   unfold Rod3.L13.WellDefined
-  refine ⟨h2, hL, by simpa using hπ, by simpa using hπ⟩
+  simp [hL, h2, h4, hπ]
 
 /-- BC3 with L ≠ 0: leaf 7 -/
 theorem rod3_bc3_welldefined (q : Rod3.P) (x t : ℝ) (h1 : q.alpha1 ≠ 0) (h2 : q.beta1 = 0) (h3 : q.alpha2 = 0)
@@ -123,8 +128,8 @@ theorem hutchens1_welldefined (p : Hutchens1N3.P) (r t : ℝ) :
   · intro hr hb hρ
     refine ⟨by simp [epv_tree, epv_cond, hr], ?_⟩
     unfold Hutchens1N3.L1.WellDefined
-    simp [hr, hb, hπ]
-    exact mul_ne_zero_iff.mp hρ
+    obtain ⟨hρ1, hρ2⟩ := mul_ne_zero_iff.mp hρ
+    simp [hr, hb, hπ, hρ1, hρ2]
   · intro hr
     exact ⟨by simp [epv_tree, epv_cond, hr], trivial⟩
 
